@@ -377,6 +377,9 @@ func solveOne(o *Obligation, outDir string, timeoutS int) {
 	q := o.Query(o.Extra)
 	_ = os.WriteFile(fn, []byte(q), 0o644)
 	o.File = fn
+	if o.Expect == "sat" && timeoutS > 6 {
+		timeoutS = 6 // reachability guards: a quick sat answer or "not refuted"
+	}
 	r := runPortfolio(fn, timeoutS, nil)
 	o.Result, o.Backend, o.Seconds, o.Raw = r.res, r.backend, r.secs, r.raw
 	if r.res == "sat" && len(o.ModelK) > 0 {
